@@ -325,6 +325,13 @@ class Result:
         self.notes = []
         self._nontrivial = set()
         self.findings = load_findings()
+        # replay files of earlier runs of this property are stale
+        import glob
+        for f in glob.glob(os.path.join(WORK, "replays", f"{prop}-*.json")):
+            try:
+                os.remove(f)
+            except OSError:
+                pass
 
     def add_tlc(self, res):
         self.cov["states"] += res["distinct"]
